@@ -101,7 +101,7 @@ class Image:
         blk, off = ref >> 16, ref & 0xFFFF
         hdr, pos = self.inodes.read(blk, off, 16)
         typ, mode, uid, gid, mtime, num = struct.unpack("<HHHHII", hdr)
-        ino = dict(type=typ, mode=mode, num=num, ref=ref)
+        ino = dict(type=typ, mode=mode, uid=uid, gid=gid, mtime=mtime, num=num, ref=ref)
         if typ == 1:
             b, pos = self.inodes.read(pos[0], pos[1], 16)
             ino["start_block"], ino["nlink"], ino["size"], ino["offset"], ino["parent"] = struct.unpack("<IIHHI", b)
